@@ -54,6 +54,11 @@ func c16Gen(g *core.Gen) {
 					sizes = []int{n, 2*s + 1}
 				}
 				cfg := scen.P2Config{Sizes: sizes, Slice: s, Blocks: 7, Class: "uniq"}
+				if second && s == 8 {
+					// interaction: displaced slices in a file that lives in a sub-directory, several goroutines
+					cfg.Names = []string{"sub/dir/a b", "other/c"}
+					cfg.G = 3
+				}
 				for L := 1; L <= 2*s+1; L++ {
 					for p := 0; p <= n; p++ {
 						for _, ins := range []bool{true, false} {
